@@ -333,3 +333,36 @@ def convert_path_obligation(prop="C11"):
         from bounded import c17
         r.replay = c17.search(nrandom=0, names=("three levels", "basic"))
     return [r]
+
+
+def alias_priority_obligation(prop="C17", replay=None):
+    """`|media|`, `|page|`, `|url|` and the user's aliases are substituted in the raw text of a page before python-markdown takes anything out of it: the alias preprocessor is
+    registered with a priority above those of the preprocessors that stash text away (html_block: block-level raw HTML; fenced_code_block), read from python-markdown's own
+    registry on every run.  Otherwise `<div><img src="|media|/logo.png"></div>` keeps the literal alias."""
+    import ast
+    from harness import loader
+    from harness.core import OR, PROVED, REFUTED, UNKNOWN
+    oid = f"{prop}.S.AliasExtension.extendMarkdown.aliases_are_substituted_before_raw_html_is_stashed"
+    fn = loader.find_def("ford._markdown", "AliasExtension.extendMarkdown")
+    regs = [c for c in ast.walk(fn) if isinstance(c, ast.Call) and isinstance(c.func, ast.Attribute) and c.func.attr == "register" and "preprocessors" in ast.unparse(c.func.value)]
+    if len(regs) != 1 or len(regs[0].args) < 3 or not isinstance(regs[0].args[2], ast.Constant):
+        return [OR(id=oid, status=UNKNOWN, kind="S", target="ford._markdown.AliasExtension.extendMarkdown", detail="registration of the alias preprocessor not found")]
+    prio = regs[0].args[2].value
+    import markdown
+    m = markdown.Markdown(extensions=["markdown.extensions.extra"])
+    others = {}
+    for name in ("html_block", "fenced_code_block"):
+        try:
+            idx = m.preprocessors.get_index_for_name(name)
+            others[name] = m.preprocessors._priority[idx].priority
+        except Exception:
+            pass
+    ok = bool(others) and all(prio > p for p in others.values())
+    r = OR(id=oid, status=PROVED if ok else REFUTED, kind="S", role="pre", backend="ast+python-markdown registry", target="ford._markdown.AliasExtension.extendMarkdown",
+           desc=f"alias preprocessor registered with priority {prio}; python-markdown's stashing preprocessors have {others} (higher runs first)")
+    if not ok:
+        r.witness = {"alias_priority": prio, "stashing_preprocessors": others}
+        r.detail = "raw HTML blocks are taken out of the text before the aliases in them are substituted"
+        if replay:
+            r.replay = replay()
+    return [r]
